@@ -180,6 +180,15 @@ func (a *API) roundTrip(req *http.Request) (*http.Response, error) {
 				if rt == "" {
 					rt = "HTTPS"
 				}
+				// the listing honours the documented filters it is SENT, not only the ones the library is known to send: name (also
+				// spelled name.exact) restricts the listing to records of that name, as the real API does
+				nameFilter := q.Get("name")
+				if nameFilter == "" {
+					nameFilter = q.Get("name.exact")
+				}
+				if nameFilter != "" && !strings.EqualFold(nameFilter, r.Name) {
+					continue
+				}
 				if q.Get("type") == "" || q.Get("type") == rt {
 					data := map[string]any{"priority": r.Priority, "target": r.Target, "value": r.Value}
 					if a.OmitEmptyValue && r.Value == "" {
